@@ -1267,6 +1267,149 @@ def edit_search(ck, m0, tag, rng, stats):
 
 
 # =====================================================================================================
+# histories through the standardisation API: every public method that changes the structure and calls
+# flush_cache(keep_sssr=..., keep_components=...) with a PART of the cache kept
+
+def fresh_copy(m):
+    """the same atoms and bonds built from scratch through add_atom / add_bond (nothing cached, labels recomputed)"""
+    from chython import MoleculeContainer
+    fresh = MoleculeContainer()
+    for n, a in m._atoms.items():
+        fresh.add_atom(a.copy(), n, _skip_calculation=True)
+    for n, k, bd in m.bonds():
+        fresh.add_bond(n, k, int(bd), _skip_calculation=True)
+    fresh.calc_labels()
+    return fresh
+
+
+def all_views(m):
+    """ring_views + the connectivity without coordinate bonds they are computed from + the component count"""
+    v = ring_views(m)
+    v['connected_components_count'] = m.connected_components_count
+    v['not_special_connectivity'] = {n: sorted(ms) for n, ms in sorted(m.not_special_connectivity.items())}
+    return v
+
+
+COUNTER_IONS = ('Na', 'K', 'Li', 'Ca', 'Mg', 'N')
+HISTORY_OPS = ('remove_metals', 'remove_metals', 'explicify_hydrogens', 'explicify_hydrogens', 'implicify_hydrogens', 'implicify_hydrogens',
+               'remove_coordinate_bonds', 'remove_coordinate_bonds', 'kekule', 'thiele', 'standardize', 'neutralize', 'canonicalize',
+               'clean_isotopes', 'clean_stereo', 'fix_resonance', 'remove_acids', 'split_metal_salts')
+
+
+def history(m, op, rng):
+    """prepares m for `op` (so that the method has something to do), fills EVERY cached view, then runs the public method.
+    returns (description, value returned by the method)"""
+    pre = []
+    atoms = list(m._atoms)
+    if op == 'remove_metals':           # counter-ions / ammonia next to the molecule
+        for _ in range(rng.choice([1, 1, 2])):
+            s = rng.choice(COUNTER_IONS)
+            n = m.add_atom(s)
+            pre.append(f'add_atom({s!r}) as {n}')
+    elif op == 'implicify_hydrogens':   # hydrogens made explicit first
+        pre.append(f'explicify_hydrogens() -> {m.explicify_hydrogens()}')
+    elif op == 'remove_coordinate_bonds':
+        k = rng.choice([1, 1, 2])
+        free = [(a, c) for a, c in itertools.combinations(atoms, 2) if c not in m._bonds[a]]
+        if rng.random() < 0.5 or not free:      # a metal centre coordinated by the molecule
+            n = m.add_atom(rng.choice(['Fe', 'Cu', 'Na', 'Pt']))
+            pre.append(f'add_atom(metal) as {n}')
+            for a in rng.sample(atoms, min(k, len(atoms))):
+                m.add_bond(n, a, 8)
+                pre.append(f'add_bond({n}, {a}, 8)')
+        else:
+            for a, c in rng.sample(free, min(k, len(free))):
+                m.add_bond(a, c, 8)
+                pre.append(f'add_bond({a}, {c}, 8)')
+    elif op == 'thiele':                # aromatic rings written as alternating bonds first
+        pre.append(f'kekule() -> {m.kekule()}')
+    elif op == 'clean_isotopes':
+        a = rng.choice(atoms)
+        m._atoms[a]._isotope = m._atoms[a].mdl_isotope + 1
+        m.flush_cache()
+        pre.append(f'isotope mark on atom {a}')
+    all_views(m)        # the history: every view has been read once (cached) before the method runs
+    m.skin_graph
+    pre.append('read sssr / rings_count / atoms_rings(_sizes) / connected_components(_count) / not_special_connectivity / skin_graph')
+    ret = getattr(m, op)()
+    pre.append(f'{op}() -> {ret!r}'[:200])
+    return '; '.join(pre), ret
+
+
+def compare_with_fresh(ck, m, m0, tag, cls, op, what, stats, views=ring_views):
+    """the cached / stored views of m == those of the same atoms and bonds built from scratch; returns the views that differ"""
+    fresh = fresh_copy(m)
+    ck.case((cls, tag, what), nontrivial=True)
+    try:
+        got, exp = views(m), views(fresh)
+    except Exception as e:
+        stats[f'{cls} views raised {type(e).__name__}'] += 1
+        return []
+    fam = gap_families(plain_adj(fresh)) or gap_families(plain_adj(m0))
+    bad = []
+    for key in got:
+        if got[key] != exp[key]:
+            if fam and key not in ('rings_count', 'components', 'connected_components_count', 'not_special_connectivity'):
+                # recorded gap family (before or after the edit): what the heuristic selects there depends on dict / set order
+                stats[f'{cls}: gap-family input, ring selection differs after rebuild (not reported)'] += 1
+                continue
+            if key in ('sssr', 'atoms_rings_sizes', 'atom marks') and sorted(map(len, got['sssr'])) == sorted(map(len, exp['sssr'])) \
+                    and basis_defect(plain_adj(m), [tuple(r) for r in m.sssr]) is None:
+                # another equally valid basis (the selection depends on dict / set order): not a stale cache
+                stats[f'{cls}: different but valid basis of the same sizes'] += 1
+                continue
+            inp = {'tag': tag, 'start atoms': [(n, a.atomic_symbol) for n, a in m0._atoms.items()],
+                   'start bonds': [(n, k, int(bd)) for n, k, bd in m0.bonds()], cls: what}
+            rp = (f"from chython import MoleculeContainer\nm=MoleculeContainer()\n"
+                  f"for n,s in {inp['start atoms']!r}: m.add_atom(s,n,_skip_calculation=True)\n"
+                  f"for a,c,o in {inp['start bonds']!r}: m.add_bond(a,c,o,_skip_calculation=True)\n"
+                  f"m.fix_structure()\n# then: {what}\n")
+            report(ck, f'stale-after-{cls}:{op}:{key}', f'after {op} the cached / stored ring view `{key}` differs from the molecule rebuilt from scratch',
+                   inp, got[key], exp[key], 'rebuild from scratch with the same atoms and bonds', replay_py=rp)
+            bad.append(key)
+    return bad
+
+
+def history_search(ck, m0, tag, rng, stats, batch=None, budget=None):
+    """state clause of the property for the standardisation API: a molecule whose ring / component views have all been read, after a
+    public method that changes atoms / bond orders / coordinate bonds and keeps PART of the cache (flush_cache(keep_sssr=, keep_components=)),
+    has the views of the same structure built from scratch; the object also goes through all search oracles and (budget) through Coq"""
+    m = m0.copy()
+    op = rng.choice(HISTORY_OPS)
+    try:
+        what, ret = history(m, op, rng)
+    except Exception as e:     # valence errors, methods that refuse the structure: not this property's business
+        stats[f'history:{op} raised {type(e).__name__}'] += 1
+        return
+    stats['history:' + op] += 1
+    if ret in (False, 0, None, []) or (isinstance(ret, tuple) and not ret[0]):
+        stats[f'history:{op} changed nothing'] += 1
+    for key in compare_with_fresh(ck, m, m0, tag, 'history', op, what, stats, views=all_views):
+        if ck.match_known(f'stale-after-history:{op}:{key}') is not None and key in m.__dict__:
+            # a recorded finding (stale cached attribute): dropped here so that the remaining oracles and the correspondence look at the
+            # REST of the object's state instead of reporting the same recorded defect again
+            del m.__dict__[key]
+            stats[f'history:{op}: recorded stale `{key}` dropped before the further checks'] += 1
+    htag = f'{tag} | {what}'
+    fam = gap_families(plain_adj(m))
+    ck.count('standardisation histories (search)')
+    # the SAME object through the independent oracles (own BFS components, cyclomatic number, marks ...): as stored, before any recomputation
+    search_one(ck, m, htag, fam, stats=stats)
+    if batch is not None and budget and budget[0] > 0 and len(m) <= 45 and not fam and op in HISTORY_COQ_OPS:
+        budget[0] -= 1
+        try:
+            batch.add(*mol_cases(m, htag, fam, with_ref=False))
+            ck.count('standardisation histories through Coq')
+            return htag
+        except Exception as e:
+            stats[f'history copy not sent to Coq ({type(e).__name__})'] += 1
+
+
+HISTORY_COQ_OPS = ('remove_metals', 'explicify_hydrogens', 'implicify_hydrogens', 'remove_coordinate_bonds', 'standardize', 'split_metal_salts',
+                   'remove_acids')
+
+
+# =====================================================================================================
 
 def input_stream(ck):
     """yields (tag, thunk building the molecule or None); deterministic for a fixed seed.  The molecule is built by the consumer
@@ -1443,7 +1586,7 @@ def run(ck):
     import time
     t0 = time.time()
     timing = ck.extra.setdefault('timing_s', {})
-    proved = common.standard_proof_steps(ck, translators=['rings'], extra_targets=['model/RingsGenSpec.vo'])   # tools/gen_rings.py -> gen/RingsConsts.v
+    proved = common.standard_proof_steps(ck, translators=['rings', 'ringspid', 'ringscache'], extra_targets=['model/RingsGenSpec.vo'])   # tools/gen_rings.py -> gen/RingsConsts.v, tools/gen_ringspid.py -> gen/RingsPidBody.v, tools/gen_ringscache.py -> gen/RingsCacheKeys.v
     timing['proof build + audit'] = round(time.time() - t0, 1)
     t0 = time.time()
     quick = ck.tier == 'quick'
@@ -1541,6 +1684,8 @@ def run(ck):
     erng = random.Random(f'{ck.seed}:c06:edits')
     trng = random.Random(f'{ck.seed}:c06:transactions')
     tx_budget = [150 if quick else 1500]
+    hrng = random.Random(f'{ck.seed}:c06:histories')
+    hist_budget = [120 if quick else 1500]
 
     # ---- exhaustive small graphs through the public API (add_atom / add_bond)
     for n in range(1, 7 if quick else 7):
@@ -1610,6 +1755,17 @@ def run(ck):
             to_coq = n_lipo <= (100 if quick else 2000)     # thorough: 2000 of the 4200 corpus molecules (and their rebuilt copies) go through Coq
         handle(tag, m, to_coq=to_coq, renumber=2 if quick else 3)
         if len(m) <= 60:
+            for t in range(2):
+                try:
+                    with deadline(SLOW):
+                        ht = history_search(ck, m, tag, hrng, stats, batch if to_coq else None, hist_budget)
+                        if ht:
+                            sent.add(ht)
+                            n_coq += 1
+                except Deadline:
+                    stats['ring views after a standardisation history do not return'] += 1
+                    report(ck, f'sssr-timeout:after-history:{tag[:200]}', f'the ring views after a standardisation method did not return within {SLOW} s',
+                           {'tag': tag}, 'no result', 'ring views', 'wall-clock deadline')
             for t in range(2):
                 try:
                     with deadline(SLOW):
